@@ -280,11 +280,28 @@ func (w *vxC11World) replicasForKey(key int) (reps []*HostInfo, routed bool) {
 	if meta == nil || meta.tokenRing == nil {
 		return nil, false
 	}
-	tok := meta.tokenRing.partitioner.Hash(w.routingKey(key))
-	if ht := meta.replicas["ks"].replicasFor(tok); ht != nil {
-		return ht.hosts, true
+	// The expectation is computed with the driver's own ring and placement code (so that C10's subject
+	// does not leak into C11) but over the hosts the policy has been told about *now*: AddHost and
+	// RemoveHost rebuild ring and replicas, so a stale cached map is a violation here.
+	var known []*HostInfo
+	for i, in := range w.inRing {
+		if in {
+			known = append(known, w.hosts[i])
+		}
 	}
-	h, _ := meta.tokenRing.GetHostForToken(tok)
+	ring, err := newTokenRing(vxPartNames[w.c.Part], known)
+	if err != nil || ring == nil {
+		return nil, false
+	}
+	tok := ring.partitioner.Hash(w.routingKey(key))
+	if w.ks != nil {
+		if strat := getStrategy(w.ks, nopLogger{}); strat != nil {
+			if ht := strat.replicaMap(ring).replicasFor(tok); ht != nil {
+				return ht.hosts, true
+			}
+		}
+	}
+	h, _ := ring.GetHostForToken(tok)
 	return []*HostInfo{h}, true
 }
 
